@@ -1507,3 +1507,32 @@ def run(idx, rep, tier):
     r13(k)
     r14(k)
     r15(k)
+    rep.rule('C14.R16', 'SFTPAttrs.encode: the presence of an optional '
+             'numeric attribute is tested with "is not None", never by '
+             'truthiness - 0 is a value (size 0, uid 0, the epoch): a v3 '
+             'block with atime or mtime 0 would go out without its '
+             'ACMODTIME field and a SETSTAT(utime 0, 0) would be an empty '
+             'request answered OK')
+    _fe = k.func('sftp.SFTPAttrs.encode')
+    _ge = k.cfg(_fe)
+    _num = {'size', 'alloc_size', 'uid', 'gid', 'permissions', 'atime',
+            'atime_ns', 'crtime', 'crtime_ns', 'mtime', 'mtime_ns', 'ctime',
+            'ctime_ns', 'attrib_bits', 'attrib_valid', 'text_hint',
+            'link_count', 'nlink'}
+    _tests = 0
+    for _a in _ge.nodes:
+        if _a.kind != 'atom' or _a.ast is None:
+            continue
+        d = dotted(_a.ast)
+        if d and d.startswith('self.') and d[5:] in _num:
+            rep.violation('C14.R16', key(_fe, f'{d[5:]} tested for presence'),
+                          f'`if {d}` treats 0 as absent: the attribute is '
+                          'left out of the encoded block although it was '
+                          'given', k.loc(_fe, _a))
+        if isinstance(_a.ast, ast.Compare) and any(
+                isinstance(c, ast.Constant) and c.value is None
+                for c in _a.ast.comparators):
+            _tests += 1
+    rep.floor('C14.R16', 'presence tests in SFTPAttrs.encode', _tests, 8)
+    rep.ok('C14.R16', key(_fe, 'presence tests'),
+           f'{_tests} "is (not) None" tests, no truthiness test of a number')
